@@ -306,4 +306,13 @@ Section Tree.
   Theorem repr_agrees_all : forall c k, wf_exotic c = true -> build H c = Ok k ->
     calculate_representation_hash H k = Ok (k_hash k).
   Proof. intros c k Hwf Hb. apply (ra_build_all c k Hwf Hb). Qed.
+  (* a constructed cell asked for its hash / depth at or above its own level answers with its representation hash and
+     its top depth (Cell.get_hash / get_depth with lvl >= level; what a parent relies on when it hashes its children) *)
+  Theorem top_level_all : forall c k L, wf_exotic c = true -> build H c = Ok k ->
+    lm_level (k_mask k) <= L -> L <= 4 ->
+    k_mask k <= 7 /\ get_hash k L = Ok (k_hash k) /\ get_depth k L = Ok (last (k_depths k) 0).
+  Proof.
+    intros c k L Hwf Hb HL H4. destruct (ra_build_all c k Hwf Hb) as [(Hm & _ & Ht) _].
+    split; [exact Hm|]. apply Ht; assumption.
+  Qed.
 End Tree.
